@@ -21,4 +21,5 @@ package debug
 //@   ensures #one len(r.vs) == old(len(r.vs)) + 1
 //@   ensures #value r.vs[old(len(r.vs))].v == v && r.vs[old(len(r.vs))].col >= col
 //@   ensures #distinct forall(j, 0, old(len(r.vs)), r.vs[j].col != r.vs[old(len(r.vs))].col)
+//@   ensures #own-column forall(j, 0, old(len(r.vs)), old(r.vs[j].col) != col) ==> r.vs[old(len(r.vs))].col == col
 //@   ensures #prefix forall(j, 0, old(len(r.vs)), r.vs[j].v == old(r.vs[j].v) && r.vs[j].col == old(r.vs[j].col))
